@@ -4,7 +4,7 @@
 From Coq Require Import List Bool Arith NArith ZArith String.
 From Coq.Strings Require Import Byte.
 From Verif.Base Require Import Bytes Outcome Str.
-From Verif.Model Require Import IE KMap Pq Corr Expiry ExpirySpec.
+From Verif.Model Require Import IE KMap Pq Corr Expiry ExpirySpec Heap HeapExpiry.
 Import ListNotations.
 Local Open Scope string_scope.
 
@@ -179,7 +179,25 @@ Definition parse_item (t : toks) : option (item * toks) :=
   | _ => None
   end.
 
-(* F <nf> flows Q <nq> items H ok|bad ;   -> state, heap flag *)
+(* A <n> {<key> <index field>}*n : the slice in array order (compared as text only) *)
+Definition parse_slot (t : toks) : option ((N * Z) * toks) :=
+  match t with
+  | k :: i :: r => match parse_N k, parse_Z i with
+                   | Some k', Some i' => Some ((k', i'), r)
+                   | _, _ => None
+                   end
+  | _ => None
+  end.
+Definition parse_layout (t : toks) : option (list (N * Z) * toks) :=
+  match t with
+  | "A" :: r => match parse_Ntok r with
+                | Some (n, r1) => parse_count parse_slot (N.to_nat n) r1
+                | None => None
+                end
+  | _ => None
+  end.
+
+(* F <nf> flows Q <nq> items H ok|bad A <n> slots ;   -> state, heap flag *)
 Definition parse_snap (T : template) (t : toks) : option (st * bool * toks) :=
   match t with
   | "F" :: r =>
@@ -190,7 +208,11 @@ Definition parse_snap (T : template) (t : toks) : option (st * bool * toks) :=
               match parse_Ntok r2 with
               | Some (nq, r3) =>
                   match parse_count parse_item (N.to_nat nq) r3 with
-                  | Some (q, "H" :: h :: ";" :: r4) => Some (mkSt fl q, String.eqb h "ok", r4)
+                  | Some (q, "H" :: h :: r4) =>
+                      match parse_layout r4 with
+                      | Some (_, ";" :: r5) => Some (mkSt fl q, String.eqb h "ok", r5)
+                      | _ => None
+                      end
                   | _ => None
                   end
               | None => None
@@ -210,7 +232,14 @@ Definition parse_res (t : toks) : option (res * toks) :=
   | "s" :: e :: "cb" :: r =>
       match parse_booltok [e], parse_nlist r with
       | Some (err, _), Some (cbs, "pk" :: r1) =>
-          option_map (fun p => (RScan err cbs (fst p), snd p)) (parse_nlist r1)
+          match parse_nlist r1 with
+          | Some (pk, "ix" :: r2) =>
+              match parse_Ntok r2 with
+              | Some (n, r3) => option_map (fun p => (RScan err cbs pk, snd p)) (parse_count parse_Ztok (N.to_nat n) r3)
+              | None => None
+              end
+          | _ => None
+          end
       | _, _ => None
       end
   | _ => None
@@ -315,15 +344,239 @@ Definition agg_parse (case obs : toks) : option parsed :=
   | None => None
   end.
 
+(* ---- the model side: the exact heap model (Model/HeapExpiry.v) ---- *)
+(* the slice in array order: key and index field of every slot *)
+Definition show_layout (h : heap) : string :=
+  " A " ++ show_nat (List.length h) ++
+  String.concat "" (map (fun x => " " ++ show_N (h_key x) ++ " " ++ show_Z (h_idx x)) h).
+
+Definition show_csnap (T : template) (s : cst) : string :=
+  show_snap T (abs_st s) ++ show_layout (cheap s).
+
+(* The harness cannot see the order of the pops that run no callback (not-ready flows); it
+   reports the popped keys in a canonical order (go/cmd/vharness/c06.go aggPicks): not-ready
+   keys ascending, then the callback keys in call order, stably sorted by (deadline before the
+   scan, not-ready first). The model's true pop sequence is brought into the same form. *)
+Fixpoint insert_N (x : N) (l : list N) : list N :=
+  match l with
+  | [] => [x]
+  | y :: r => if (y <? x)%N then y :: insert_N x r else x :: l
+  end.
+Definition pick_lt (pre : st) (a b : key) : bool :=
+  let da := dl_in pre a in let db := dl_in pre b in
+  (da <? db)%Z || ((da =? db)%Z && negb (ready_in pre a) && ready_in pre b).
+Fixpoint insert_pick (pre : st) (x : key) (l : list key) : list key :=
+  match l with
+  | [] => [x]
+  | y :: r => if pick_lt pre y x then y :: insert_pick pre x r else x :: l
+  end.
+Definition canon_picks (pre : st) (picks : list key) : list key :=
+  let nr := fold_right insert_N [] (filter (fun k => negb (ready_in pre k)) picks) in
+  let rd := filter (ready_in pre) picks in
+  fold_right (insert_pick pre) [] (nr ++ rd).
+
+Definition show_zs (l : list Z) : string :=
+  show_nat (List.length l) ++ String.concat "" (map (fun z => " " ++ show_Z z) l).
+
+Definition show_cent (T : template) (pre : cst) (e : cent) : string :=
+  match ce_res e with
+  | RScan err cbs picks =>
+      "s " ++ show_bool err ++ " cb " ++ show_keys cbs ++ " pk " ++ show_keys (canon_picks (abs_st pre) picks) ++
+      " ix " ++ show_zs (ce_ix e)
+  | r => show_res r
+  end ++ " " ++ show_csnap T (ce_st e) ++ " ;".
+
+Fixpoint show_cents (T : template) (pre : cst) (tr : list cent) : list string :=
+  match tr with
+  | [] => []
+  | e :: tr' => show_cent T pre e :: show_cents T (ce_st e) tr'
+  end.
+
 Definition agg_model_obs (c : parsed) : string :=
-  let '(tr, e) := run Fixed (c_params c) (c_ops c) 0%Z init in show_trace (c_template c) tr e.
+  let '(tr, e) := crun (c_params c) (c_ops c) 0%Z cinit in
+  String.concat " " (show_cents (c_template c) cinit tr ++
+                     match e with EndOk => [] | EndPanic => ["PANIC"] | EndReject => ["REJECT"] end).
+
+(* ---- raw heap probe: case "HP <op>*", run on the array heap model alone ----
+   op := push k a i | pop | upd k a i | fix i | rem i | set i a i | swap i j | init | peek
+   obs := (<result> A <n> {<key> <index> <active> <inactive>}*n ;)*
+   result := ok | panic | it <key> <index field> | top <key>
+   A Go panic leaves the slice as it was (every modelled panic happens before the first write). *)
+Inductive hop :=
+| HPush (k : N) (a i : Z) | HPop | HUpd (k : N) (a i : Z) | HFix (i : Z) | HRem (i : Z)
+| HSet (p : Z) (a i : Z) | HSwap (i j : Z) | HInit | HPeek.
+
+Fixpoint parse_hops (fuel : nat) (t : toks) : option (list hop) :=
+  match fuel with
+  | O => None
+  | S f =>
+      match t with
+      | [] => Some []
+      | "push" :: k :: a :: i :: r =>
+          match parse_N k, parse_Z a, parse_Z i with
+          | Some k', Some a', Some i' => option_map (cons (HPush k' a' i')) (parse_hops f r)
+          | _, _, _ => None
+          end
+      | "upd" :: k :: a :: i :: r =>
+          match parse_N k, parse_Z a, parse_Z i with
+          | Some k', Some a', Some i' => option_map (cons (HUpd k' a' i')) (parse_hops f r)
+          | _, _, _ => None
+          end
+      | "set" :: p :: a :: i :: r =>
+          match parse_Z p, parse_Z a, parse_Z i with
+          | Some p', Some a', Some i' => option_map (cons (HSet p' a' i')) (parse_hops f r)
+          | _, _, _ => None
+          end
+      | "swap" :: i :: j :: r =>
+          match parse_Z i, parse_Z j with
+          | Some i', Some j' => option_map (cons (HSwap i' j')) (parse_hops f r)
+          | _, _ => None
+          end
+      | "fix" :: i :: r => match parse_Z i with Some i' => option_map (cons (HFix i')) (parse_hops f r) | None => None end
+      | "rem" :: i :: r => match parse_Z i with Some i' => option_map (cons (HRem i')) (parse_hops f r) | None => None end
+      | "pop" :: r => option_map (cons HPop) (parse_hops f r)
+      | "init" :: r => option_map (cons HInit) (parse_hops f r)
+      | "peek" :: r => option_map (cons HPeek) (parse_hops f r)
+      | _ => None
+      end
+  end.
+
+Definition show_hitem (x : hitem) : string := "it " ++ show_N (h_key x) ++ " " ++ show_Z (h_idx x).
+
+(* a Go int used as a slice index: negative panics *)
+Definition at_index {A} (i : Z) (f : nat -> outcome A) : outcome A :=
+  if (0 <=? i)%Z then f (Z.to_nat i) else Panic.
+
+Definition hop_step (o : hop) (h : heap) : outcome (string * heap) :=
+  match o with
+  | HPush k a i => do h' <- heap_Push h (mkH k a i 0); Ok ("ok", h')
+  | HPop => do r <- heap_Pop h; Ok (show_hitem (fst r), snd r)
+  | HUpd k a i => do h' <- pq_Update h k a i; Ok ("ok", h')
+  | HFix i => do h' <- heap_Fix h i; Ok ("ok", h')
+  | HRem i => do r <- at_index i (heap_Remove h); Ok (show_hitem (fst r), snd r)
+  | HSet p a i => do h' <- at_index p (fun n => match nth_error h n with
+                                               | Some x => Ok (set_nth n (h_set_times x a i) h)
+                                               | None => Panic
+                                               end); Ok ("ok", h')
+  | HSwap i j => do h' <- at_index i (fun a => at_index j (fun b => pq_Swap h a b)); Ok ("ok", h')
+  | HInit => do h' <- heap_Init h; Ok ("ok", h')
+  | HPeek => do x <- pq_Peek h; Ok ("top " ++ show_N (h_key x), h)
+  end.
+
+Definition show_full_layout (h : heap) : string :=
+  "A " ++ show_nat (List.length h) ++
+  String.concat "" (map (fun x => " " ++ show_N (h_key x) ++ " " ++ show_Z (h_idx x) ++ " " ++
+                                  show_Z (h_act x) ++ " " ++ show_Z (h_inact x)) h).
+
+Fixpoint hp_obs (ops : list hop) (h : heap) : list string :=
+  match ops with
+  | [] => []
+  | o :: r =>
+      match hop_step o h with
+      | Ok (res, h') => (res ++ " " ++ show_full_layout h' ++ " ;") :: hp_obs r h'
+      | Panic => ("panic " ++ show_full_layout h ++ " ;") :: hp_obs r h
+      | _ => ["STUCK"]
+      end
+  end.
+
+(* the oracle of the probe, on the IMPLEMENTATION's layouts: what Props/C06.v proves of the model
+   (C06_heap_push/pop/fix/update/remove: invariant kept, Pop/Remove hand out the right item with
+   index -1, panics exactly on indices that are not positions; Init establishes the invariant) *)
+Definition idx_ok_b (h : heap) : bool :=
+  forallb (fun p => Z.eqb (h_idx (snd p)) (Z.of_nat (fst p))) (combine (seq 0 (List.length h)) h).
+Definition ordered_b (h : heap) : bool :=
+  forallb (fun p => match fst p with
+                    | O => true
+                    | c => match nth_error h ((c - 1) / 2) with
+                           | Some par => (h_min par <=? h_min (snd p))%Z
+                           | None => false
+                           end
+                    end) (combine (seq 0 (List.length h)) h).
+Definition heap_inv_b (h : heap) : bool := idx_ok_b h && ordered_b h.
+
+Definition parse_fslot (t : toks) : option (hitem * toks) :=
+  match t with
+  | k :: x :: a :: i :: r =>
+      match parse_N k, parse_Z x, parse_Z a, parse_Z i with
+      | Some k', Some x', Some a', Some i' => Some (mkH k' a' i' x', r)
+      | _, _, _, _ => None
+      end
+  | _ => None
+  end.
+Definition parse_hstep (t : toks) : option ((list string * heap) * toks) :=
+  let lay (res : list string) (r : toks) :=
+    match r with
+    | "A" :: r1 => match parse_Ntok r1 with
+                   | Some (n, r2) => match parse_count parse_fslot (N.to_nat n) r2 with
+                                     | Some (h, ";" :: r3) => Some ((res, h), r3)
+                                     | _ => None
+                                     end
+                   | None => None
+                   end
+    | _ => None
+    end in
+  match t with
+  | "ok" :: r => lay ["ok"] r
+  | "panic" :: r => lay ["panic"] r
+  | "it" :: k :: x :: r => lay ["it"; k; x] r
+  | "top" :: k :: r => lay ["top"; k] r
+  | _ => None
+  end.
+
+Definition res_is (res : list string) (s : string) : bool :=
+  match res with [x] => String.eqb x s | _ => false end.
+Definition res_item (res : list string) (k : N) : bool :=
+  match res with ["it"; k'; x] => String.eqb k' (show_N k) && String.eqb x "-1" | _ => false end.
+Definition is_pos (h : heap) (i : Z) : bool := (0 <=? i)%Z && (i <? Z.of_nat (List.length h))%Z.
+
+Definition hop_check (o : hop) (pre : heap) (res : list string) (post : heap) : bool :=
+  if heap_inv_b pre then
+    match o with
+    | HPush _ _ _ => res_is res "ok" && heap_inv_b post && Nat.eqb (List.length post) (S (List.length pre))
+    | HPop => match pre with
+              | [] => res_is res "panic" && Nat.eqb (List.length post) 0
+              | top :: _ => res_item res (h_key top) && heap_inv_b post && Nat.eqb (S (List.length post)) (List.length pre)
+              end
+    | HUpd _ _ _ => res_is res "ok" && heap_inv_b post && Nat.eqb (List.length post) (List.length pre)
+    | HFix i => if is_pos pre i || Z.eqb i (-1) || (Z.eqb i 0 && Nat.eqb (List.length pre) 0)
+                then res_is res "ok" && heap_inv_b post else res_is res "panic" && heap_inv_b post
+    | HRem i => if is_pos pre i
+                then match nth_error pre (Z.to_nat i) with
+                     | Some x => res_item res (h_key x) && heap_inv_b post && Nat.eqb (S (List.length post)) (List.length pre)
+                     | None => false
+                     end
+                else res_is res "panic" && heap_inv_b post
+    | HInit => res_is res "ok" && heap_inv_b post
+    | HPeek => match pre with
+               | [] => res_is res "panic"
+               | top :: _ => match res with ["top"; k] => String.eqb k (show_N (h_key top)) | _ => false end
+               end
+    | HSet _ _ _ | HSwap _ _ => true
+    end
+  else match o with HInit => res_is res "ok" && heap_inv_b post | _ => true end.
+
+Fixpoint hp_holds (ops : list hop) (pre : heap) (t : toks) : bool :=
+  match ops with
+  | [] => match t with [] => true | _ => false end
+  | o :: r => match parse_hstep t with
+              | Some ((res, post), t') => hop_check o pre res post && hp_holds r post t'
+              | None => false
+              end
+  end.
+
+Definition hp_run (case obs : toks) : string :=
+  match parse_hops (S (List.length case)) case with
+  | Some ops => String.concat " " (hp_obs ops []) ++ " | " ++ show_bool (hp_holds ops [] obs) ++ " T"
+  | None => "PARSE-ERROR"
+  end.
 
 (* generated histories satisfy the hypotheses of the theorem when the timeouts are positive *)
 Definition c06_run (case obs : toks) : string :=
+  match case with "HP" :: r => hp_run r obs | _ =>
   match agg_parse case obs with
   | Some c =>
       agg_model_obs c ++ " | " ++
       show_bool (c_impl_ok c && C06_holds_on (c_params c) (c_ops c) (c_impl c)) ++ " " ++
       show_bool (wf_params (c_params c))
   | None => "PARSE-ERROR"
-  end.
+  end end.
